@@ -341,7 +341,10 @@ static Obj encode(const Obs& o, const Cfg& c, const Obs* prev, const Obs* twin, 
     ps.add(o.p[i] < 0 ? -1 : (o.p[i] > 0 ? 1 : 0));
     sum += o.p[i];
   }
-  j.kv("p", p).kv("ps", ps).kv("psum", fp(sum));
+  bool peq = true;
+  for (size_t i = 1; i < o.p.size(); ++i)
+    if (!bitEq(o.p[i], o.p[0])) peq = false;
+  j.kv("p", p).kv("ps", ps).kv("psum", fp(sum)).kv("peq", peq);
   // lookups
   Arr lk;
   for (const auto& pr : o.probes) lk.add(Arr().add(rk(pr.x)).add(pr.kind).add(pr.i).add(pr.resV).add(pr.resI));
@@ -462,6 +465,13 @@ public:
     return s;
   }
 
+  static std::string kindOf(const std::string& r)
+  {
+    if (r == "ok") return "ok";
+    if (r.compare(0, 10, "raise:std:") == 0) return "std";
+    if (r == "raise:other") return "other";
+    return "bpp";
+  }
   void emit(Obj& e, const std::string& outcome)
   {
     if (g_dump)
@@ -483,7 +493,7 @@ public:
       twinFailed = true;
       ++twinFailures;
     }
-    e.kv("r", outcome).kv("st", stJson()).kv("o", encode(o, cfg, haveLast ? &last : nullptr, &tw, twinFailed));
+    e.kv("r", outcome).kv("rk", kindOf(outcome)).kv("st", stJson()).kv("o", encode(o, cfg, haveLast ? &last : nullptr, &tw, twinFailed));
     tracer().emit(e);
     last = o;
     haveLast = true;
@@ -506,7 +516,7 @@ public:
     e.kv("e", "Construct");
     if (r != "ok")
     {
-      e.kv("r", r).kv("st", stJson());
+      e.kv("r", r).kv("rk", kindOf(r)).kv("st", stJson());
       tracer().emit(e);
       return false;
     }
@@ -850,11 +860,14 @@ public:
     return true;
   }
 
-  static bool shapeOk(const Obs& o)
+  static bool shapeOk(const Obs& o, bool noEmptyClass)
   {
     if (o.failed) return false;
     size_t n = o.n;
     if (o.v.size() != n || o.p.size() != n || o.B.size() != n + 1) return false;
+    if (noEmptyClass)
+      for (size_t i = 0; i < n; ++i)
+        if (!(o.B[i] < o.B[i + 1])) return false;
     for (size_t i = 0; i + 1 < n; ++i)
       if (!(o.v[i] < o.v[i + 1])) return false;
     for (size_t i = 0; i < n; ++i)
@@ -868,7 +881,9 @@ public:
   {
     if (!regular(next)) return false;
     const char* id = next.median ? "C09-median-values-leave-their-class" : "C09-class-narrower-than-precision";
-    if (!avoid(id)) return true;
+    bool noEmpty = avoid("C09-empty-class-equal-prob");
+    if (!avoid(id) && !noEmpty) return true;
+    bool shape = avoid(id);
     try
     {
       Guard g(3);
@@ -885,7 +900,8 @@ public:
       {
         DistP d = buildFresh(c);
         Obs o = observe(*d, c);
-        if (!shapeOk(o)) { ++steered; return false; }
+        bool bad = shape ? !shapeOk(o, noEmpty && c.kind() == "cont") : (c.kind() == "cont" && !shapeOk(o, true) && shapeOk(o, false));
+        if (bad) { ++steered; return false; }
       }
     }
     catch (...) {}
@@ -1009,11 +1025,12 @@ public:
               {
                 Target t = ts[0];
                 double old = cfg.get(t.name);
+                double there = std::fabs(old) * 3 > 100 ? old / 3 : old * 3; // stays inside the three decades
                 Cfg next = cfg;
-                next.set(t.name, old * 3);
+                next.set(t.name, there);
                 if (acceptable(next))
                 {
-                  doSetParam({{t, old * 3}}, 0);
+                  doSetParam({{t, there}}, 0);
                   doSetParam({{t, old}}, 0);
                 }
               }
@@ -1028,24 +1045,32 @@ public:
 void Runner::probe(const std::string& id)
 {
   reset();
-  if (id == "C09-gamma-offset-stale-domain")
+  Cfg c;
+  if (id == "C09-class-narrower-than-precision")
   {
-    Cfg c;
-    c.fam = "gammaoff";
-    c.n = 4;
-    c.par = {{"alpha", 2.0}, {"beta", 2.0}, {"offset", 0.0}};
-    if (!doConstruct(c)) return;
-    doSetParam({{Target{-1, "offset"}, 1.0}}, 0);
-    doSetParam({{Target{-1, "offset"}, 0.0}}, 0);
+    // shape 0.1, 32 classes: the first classes are narrower than the 1e-12 resolution of the class map
+    c.fam = "gamma";
+    c.n = 32;
+    c.par = {{"alpha", 0.1}, {"beta", 1.0}};
+    doConstruct(c);
   }
-  else if (id == "C09-lookup-first-bound")
+  else if (id == "C09-empty-class-equal-prob")
   {
-    Cfg c;
-    c.fam = "exponential";
-    c.n = 2;
-    c.par = {{"lambda", 1.0}};
+    // Beta(100, 0.1): the upper 1/32 quantile is closer to 1 than a double can tell
+    c.fam = "beta";
+    c.n = 32;
+    c.scheme = 1;
+    c.par = {{"alpha", 100.0}, {"beta", 0.1}};
+    doConstruct(c);
+  }
+  else if (id == "C09-median-values-leave-their-class")
+  {
+    // medians are rescaled by mean / sum(medians): ill-conditioned for a parent centred on 0
+    c.fam = "gaussian";
+    c.n = 6;
+    c.par = {{"mu", 0.0}, {"sigma", 10.0}};
     if (!doConstruct(c)) return;
-    doSetN(4);
+    doSetMedian(true);
   }
 }
 
